@@ -74,6 +74,9 @@ func cmdDNSPool(args []string) error {
 	net(func(r *aRule) { r.RestTag = [][]int{bytesToInts("t1")} })
 	net(func(r *aRule) { r.Denyallow = hostsOf([]string{sub}) })
 	net(func(r *aRule) { r.Pat = bytesToInts("||" + coll + "^"); r.White = true })
+	// $denyallow never applies to an IP-address hostname - and a name made of hexadecimal digits is not an address
+	net(func(r *aRule) { r.Pat = bytesToInts("||cafe.be^"); r.Denyallow = hostsOf([]string{other}) })
+	net(func(r *aRule) { r.Pat = bytesToInts("||1.2.3.4^"); r.Denyallow = hostsOf([]string{other}) })
 	// browser-only rules: they would match if they were loaded
 	net(func(r *aRule) { r.Mcase = "on" })
 	net(func(r *aRule) { r.Third = "off" })
@@ -117,7 +120,7 @@ func cmdDNSPool(args []string) error {
 		}
 	}
 	hs := map[string]bool{}
-	for _, name := range []string{h, coll, sub, other, "x" + h} {
+	for _, name := range []string{h, coll, sub, other, "x" + h, "cafe.be", "1.2.3.4"} {
 		if !hs[name] {
 			hs[name] = true
 			pool.Hashes = append(pool.Hashes, niHash{W: bytesToInts(name), H: fmt.Sprint(filterutil.FastHash(name))})
@@ -125,7 +128,7 @@ func cmdDNSPool(args []string) error {
 		for _, dt := range []string{"A", "AAAA"} {
 			for _, cl := range []string{"", "phone"} {
 				for _, tg := range [][]string{{}, {"t1"}} {
-					q := aReq{Hostreq: true, URL: bytesToInts("http://" + name), Host: hostFromString(name), Src: aHost{}, HostIsIP: false,
+					q := aReq{Hostreq: true, URL: bytesToInts("http://" + name), Host: hostFromString(name), Src: aHost{}, HostIsIP: isIPLiteral(name),
 						HostPsl: realPsl(name), Type: "document", DNSType: dt, Tags: codesOf(tg), Cname: bytesToInts(cl), Cip: aIP{Nil: true}}
 					pool.Queries = append(pool.Queries, q)
 				}
@@ -384,7 +387,8 @@ func cmdDriveDNSLists(args []string) error {
 		}
 	}
 	half := len(kept) / 2
-	st, err := buildStorage([][]string{kept[:half], kept[half:]})
+	// three lists, the middle one without a single rule: list boundaries must not matter
+	st, err := buildStorage([][]string{kept[:half], {"! nothing but comments in this list", "# and blank lines", ""}, kept[half:]})
 	if err != nil {
 		return err
 	}
@@ -468,7 +472,7 @@ func cmdDriveDNSLists(args []string) error {
 		asked = append(asked, ev)
 	}
 	// the same queries again, from 8 goroutines, over cold file-backed copies of the lists
-	fst, closeFiles, err := fileStorage([][]string{kept[:half], kept[half:]})
+	fst, closeFiles, err := fileStorage([][]string{kept[:half], {"! nothing but comments in this list", "# and blank lines", ""}, kept[half:]})
 	if err != nil {
 		return err
 	}
